@@ -44,6 +44,7 @@ type loopInfo struct {
 	havocKeep bool // arbitrary heap changes except this goroutine's lock set
 	allocs   bool
 	frame    *loopFrameInfo
+	entry    *State // the state in which the loop was last entered (atentry in invariants)
 }
 
 type FuncVerifier struct {
@@ -353,6 +354,9 @@ func (fv *FuncVerifier) summarizeInstr(ins ssa.Instruction, cells map[ssa.Value]
 			return
 		}
 		c := fv.db.Funcs[callee.String()]
+		if c == nil && callee.Origin() != nil {
+			c = fv.db.Funcs[callee.Origin().String()] // an instance of a generic function under contract
+		}
 		if c == nil {
 			if fv.db.purePrefixOf(callee.String()) != "" {
 				return
